@@ -6,7 +6,7 @@ import sshfx "github.com/pkg/sftp/internal/encoding/ssh/filexfer"
 
 func vN() int {
 	if vThorough() {
-		return 40
+		return 32
 	}
 	return 24
 }
